@@ -734,6 +734,24 @@ def array_decl(draw, ctx, symbolic=None, name=None, max_rows=4, max_cols=5):
 def for_loop(draw, ctx, symbolic=None, max_mode=12, allow_empty=True, body_max=3):
     vtype = draw(st.sampled_from(["int", "int", "int", "float", "bool", "str"]))
     var = draw(fresh_name(ctx))
+    if vtype == "int" and not ctx.names and draw(st.integers(0, 11)) == 0:
+        # a range whose bounds need more than 53 / 63 / 64 bits (INT is [0-9]+, ranges are exact for any size); the body
+        # uses the variable bare -- arithmetic on integers beyond the 64-bit range is outside the value domain
+        base = draw(st.sampled_from([2 ** 53 - 2, 2 ** 62 - 1, 2 ** 63 - 3, 2 ** 63 - 1, 2 ** 63, 2 ** 64 - 2, 2 ** 64, 10 ** 20]))
+        a = base + draw(st.integers(0, 3))
+        step = draw(st.sampled_from([None, None, 1, 2, 3, 2 ** 61 + 1]))
+        ln = draw(st.integers(0 if allow_empty else 1, 4))
+        b = a + (step or 1) * ln
+        ctx.used.add(var)
+        body = []
+        for _ in range(draw(st.integers(1, body_max))):
+            v_ = F1(A.Var(var))
+            form = draw(st.integers(0, 3))
+            args = [A.Args([v_], [], False), A.Args([], [[draw(ident()), v_]], False),
+                    A.Args([F1(A.Num("int", "1")), v_], [[draw(ident()), A.ListVal([v_, v_])]], False),
+                    A.Args([v_, v_], [], True)][form]
+            body.append(A.Stmt(draw(op_name()), args, [draw(mode_expr(Ctx(depth=0), max_mode))], "", ""))
+        return A.For("int", var, A.Range(str(a), str(b), None if step is None else str(step)), body)
     if vtype in ("int", "float") and draw(st.integers(0, 2)) > 0:
         a = draw(st.integers(0, 6))
         ln = draw(st.integers(0 if allow_empty else 1, 4))
